@@ -15,6 +15,7 @@ import fcntl
 import json
 import os
 import selectors
+import signal as signal_mod
 import socket
 import struct
 import subprocess
@@ -83,7 +84,9 @@ def proc_syscall(pid):
 
 class Scheduler:
     def __init__(self, workdir, sockpath, lockfile, visible, chooser, max_steps=4000, step_timeout=20.0, poll_at=None,
-                 kill_roots=(), max_kills=1, env_player=None, on_ask=None):
+                 kill_roots=(), max_kills=1, env_player=None, on_ask=None, term_scripts=()):
+        self.term_scripts = list(term_scripts)   # environment player "user": may send SIGTERM to the shell that runs one of these targets' scripts (once)
+        self.terms_left = 1 if term_scripts else 0
         self.on_ask = on_ask                 # callback(name): environment action a script asks for at an "ask:<name>" gate
         self.asked = set()
         self.env_player = env_player         # environment player with choices() -> [label] and act(label) (the make parent)
@@ -490,6 +493,14 @@ class Scheduler:
                     if r["name"] in self.kill_roots and r["rc"] is None and any(
                             p.lid.startswith(r["name"] + ".") and not p.dead for p in self.procs.values()):
                         choices.append(("ENV", 0, "env", "kill:" + r["name"], ""))
+            if self.terms_left > 0:
+                # a script that is parked at one of its gates can be told to stop (only its shell gets the signal)
+                for p in self.procs.values():
+                    if p.gate and p.gate[0] == "script" and not p.dead and p.lid.endswith("/s"):
+                        tgt = p.gate[1].split(" ")[-1].split(":")[-1]
+                        if tgt in self.term_scripts:
+                            choices.append(("ENV", 0, "env", "term:" + tgt, ""))
+                            break
             if self.env_player is not None:
                 for lab in self.env_player.choices():
                     choices.append(("ENV", 0, "env", lab, ""))
@@ -578,6 +589,25 @@ class Scheduler:
                 if label.startswith("kill:"):
                     self.kills_left -= 1
                     self.kill_tree(label.split(":", 1)[1])
+                elif label.startswith("term:"):
+                    self.terms_left -= 1
+                    tgt = label.split(":", 1)[1]
+                    for p in self.procs.values():
+                        if p.gate and p.gate[0] == "script" and not p.dead and p.gate[1].split(" ")[-1].split(":")[-1] == tgt:
+                            # p is the vgate helper; its parent is the script's shell
+                            try:
+                                os.kill(p.ppid, signal_mod.SIGTERM)
+                            except ProcessLookupError:
+                                pass
+                            self.events.append((self.step_no - 1, "ENV", "term", tgt))
+                            # the helper itself goes too (nobody is left to read its answer)
+                            try:
+                                os.kill(p.pid, signal_mod.SIGKILL)
+                            except ProcessLookupError:
+                                pass
+                            p.gate = None
+                            p.dead = True
+                            break
                 else:
                     self.env_player.act(label)
                     self.events.append((self.step_no - 1, "ENV", "make", label))
